@@ -626,6 +626,14 @@ namespace {
          default: throw Bad{};
          }
       }
+      // one more argument at the end of an expression list (lists are operands by identity: what they hold is not part of any key)
+      if (op == "xgrow") {
+         need(2);
+         auto& xl = h.node<ipr::Expr_list>(w[1]);
+         auto& e = h.node<ipr::Expr>(w[2]);
+         const_cast<impl::Expr_list&>(dynamic_cast<const impl::Expr_list&>(xl)).push_back(&e);
+         return "ok";
+      }
       // one more member at the end of a growing container
       if (op == "grow") {
          need(3);
